@@ -220,6 +220,10 @@ func doDump(p *Prog, what string) {
 	case strings.HasPrefix(what, "ssa:"):
 		fn := p.Func(strings.TrimPrefix(what, "ssa:"))
 		fn.WriteTo(os.Stdout)
+	case what == "mut":
+		for _, l := range p.Own().MutSummary() {
+			fmt.Println(l)
+		}
 	case what == "rec":
 		for _, comp := range g.RecursiveSCCs() {
 			in := map[*ssa.Function]bool{}
